@@ -135,6 +135,32 @@ fn apply(l: &mut Locale, op: &str) -> String {
         "tfield?" => format!("{:?}", l.extensions.transform.tfield(a0()).map(|i| i.collect::<Vec<_>>())),
         "has_tag?" => format!("{:?}", l.extensions.private.has_tag(a0())),
         "has_variant?" => format!("{:?}", Variant::from_bytes(&a0()).map(|v| l.id.has_variant(v))),
+        "clone_onto" => {
+            const DIRTY: &[&str] = &[
+                "ca-Latn-ES-valencia-1996-u-attr-zzz-ca-gregory-nu-thai-t-de-1996-k0-dvorak-m0-names-x-priv-zz",
+                "sr-Cyrl-RS-u-foo-t-en-h0-hybrid",
+                "und-x-a-b-c",
+                "abcdefgh-macos",
+            ];
+            let x = a0().first().copied().unwrap_or(0) as usize;
+            match DIRTY[(x / 3) % DIRTY.len()].parse::<Locale>() {
+                Ok(mut d) => {
+                    match x % 3 {
+                        0 => d.clone_from(l),
+                        1 => {
+                            d.id.clone_from(&l.id);
+                            d.extensions.unicode.clone_from(&l.extensions.unicode);
+                            d.extensions.transform.clone_from(&l.extensions.transform);
+                            d.extensions.private.clone_from(&l.extensions.private);
+                        }
+                        _ => d = l.clone(),
+                    }
+                    *l = d;
+                    "ok".into()
+                }
+                Err(e) => format!("{:?}", e),
+            }
+        }
         // optional-API operations are not part of the probe: skipped identically in every build
         _ => "skipped".into(),
     }
